@@ -363,3 +363,25 @@ def m_inline_in_branch():
 
 
 ALL.update({"denotations": m_denotations, "custom_commutative": m_custom_commutative_name, "inline_in_branch": m_inline_in_branch})
+
+
+def m_optional_outputs():
+    """A node with three outputs whose MIDDLE (optional) output is unused while the last one is used - and nothing else
+    that an unused-removal pass could remove."""
+    scale = init("ln_scale", np.ones((3,)))
+    nodes = [helper.make_node("LayerNormalization", ["x", "ln_scale"], ["ln_y", "ln_mean", "ln_inv"], name="ln1", axis=-1),
+             helper.make_node("Mul", ["ln_y", "ln_inv"], ["y"], name="mul")]
+    g = helper.make_graph(nodes, "optional_outputs", [vi("x")], [vi("y")], initializer=[scale])
+    return helper.make_model(g, opset_imports=[helper.make_opsetid("", 18)], ir_version=10)
+
+
+def m_optional_outputs_trailing():
+    """Both optional outputs unused (trailing): they are trimmed."""
+    scale = init("ln_scale", np.ones((3,)))
+    nodes = [helper.make_node("LayerNormalization", ["x", "ln_scale"], ["ln2_y", "ln2_mean", "ln2_inv"], name="ln2", axis=-1),
+             helper.make_node("Relu", ["ln2_y"], ["y"], name="relu")]
+    g = helper.make_graph(nodes, "optional_outputs_trailing", [vi("x")], [vi("y")], initializer=[scale])
+    return helper.make_model(g, opset_imports=[helper.make_opsetid("", 18)], ir_version=10)
+
+
+ALL.update({"optional_outputs": m_optional_outputs, "optional_outputs_trailing": m_optional_outputs_trailing})
